@@ -221,7 +221,11 @@ Definition step (cfg : config) (q : qstate) (i : input) : bool * qstate * list o
    outstanding on it is re-queued directly), and then - on EVERY way out of the walk - the
    requeue array is flushed.  [flush_on_error = false] is the variant that skips the flush
    when the walk ended with an error (the array is destroyed with its entries). *)
-Inductive batch_item := BReply (r : reply) | BMalformed.
+Inductive batch_item :=
+| BReply (r : reply)
+| BMalformed      (* a message that does not parse: process_answer fails with EBADRESP *)
+| BConnFailed.    (* the read that delivered the data ended with a connection failure; it is
+                     handled after the data read before it has been processed (ECONNREFUSED) *)
 
 (* the walk; the boolean tells whether it ended on the error path.
    this_conn: the connection being read is the one the query is outstanding on (if any) *)
@@ -233,11 +237,12 @@ Fixpoint read_walk (cfg : config) (servers : Z) (on_tcp this_conn : bool) (q : q
       let '(_, q1, o1) := step cfg q (IReply servers on_tcp this_conn r) in
       let '(q2, o2, e) := read_walk cfg servers on_tcp this_conn q1 rest in
       (q2, o1 ++ o2, e)
-  | BMalformed :: _ =>
+  | (BMalformed | BConnFailed) as it :: _ =>
+      let status := match it with BMalformed => ARES_EBADRESP | _ => ARES_ECONNREFUSED end in
       let outstanding_here :=
         this_conn && match q_conn q with Some c => Bool.eqb c on_tcp | None => false end in
       if outstanding_here then
-        let '(_, q1, o1) := step cfg q (IConnClosed servers ARES_EBADRESP) in (q1, o1, true)
+        let '(_, q1, o1) := step cfg q (IConnClosed servers status) in (q1, o1, true)
       else (q, [], true)
   end.
 
